@@ -94,6 +94,35 @@ Proof. exact get_missing_column. Qed.
 Theorem C12_in_is_disjunction : forall cs r c ks, eval cs r (QIn c ks) = eval cs r (in_as_or c ks).
 Proof. exact eval_in_as_or. Qed.
 
+(* Arithmetic comparisons are decided on exact fractions: denominators stay positive (so cross-multiplication is
+   faithful), and on a bare column against a constant they are the plain comparison. *)
+Theorem C12_term_denominator_positive : forall cs r t n d, tval cs r t = Some (n, d) -> 0 < d.
+Proof. exact tval_den_pos. Qed.
+
+Theorem C12_term_atom : forall cs r c o k, (exists y, num k = Some y) -> (forall z, cell_of cs r c <> Sv z) ->
+  eval cs r (QCmpT (TCol c) o (TConst k)) = eval cs r (QCmp c o k).
+Proof. exact cmpt_atom. Qed.
+
+(* get_population (population/manager.py): with untracked=True the whole table; with untracked=False exactly the rows
+   whose tracked cell is True, in table order - with unique labels the same simulants as a full view with the query
+   `tracked` returns for the whole index; a table that has no tracked column yet is returned whole. *)
+Theorem C12_population : forall t,
+  population t true = (colnames t, trows t) /\
+  (In TRACKED (colnames t) ->
+     fst (population t false) = colnames t /\
+     snd (population t false) = filter (fun lr => eval (colnames t) (snd lr) (QCol TRACKED)) (trows t) /\
+     (NoDup (map fst (trows t)) ->
+      map fst (snd (population t false)) = filter (sat t (QCol TRACKED)) (map fst (trows t)))) /\
+  (~ In TRACKED (colnames t) -> population t false = (colnames t, trows t)).
+Proof.
+  intros t. split; [apply population_untracked|]. split; [apply population_tracked | apply population_no_tracked_column].
+Qed.
+
+Theorem C12_population_vs_full_view : forall t c rows, In TRACKED (colnames t) -> NoDup (map fst (trows t)) ->
+  get t (mk_view [] (QCol TRACKED)) (map fst (trows t)) QTrue = Ok (c, rows) ->
+  map fst rows = map fst (snd (population t false)).
+Proof. exact population_vs_full_view. Qed.
+
 (* History.  After ANY sequence of updates (accepted ones are applied, refused ones leave the table alone), a read
    filters on, and returns, the CURRENT cells: the value of the last accepted update that addressed the cell, the
    original value if none did. *)
@@ -146,6 +175,14 @@ Example ex_in_and_column_vs_column :
   get ex_t2 (mk_view [1; 0] (QOr (QIn 3 [Sv 5; Sv 0]) (QCmpC 9 CGt 1))) [2; 1; 0] (QNot (QIn 1 [Fv 4; Iv 7]))
   = Ok ([1; 0], [(1, [Iv 2; Bv false])]).
 Proof. vm_compute. reflexivity. Qed.
+Example ex_arithmetic_and_string_order :     (* age * 2 - 1 > tracked_by + 2.5   and   sex >= 'x'  (string 0 < 5 < 6) *)
+  get ex_t2 (mk_view [1; 0] (QCmpT (TSub (TMul (TCol 1) (TConst (Iv 2))) (TConst (Iv 1))) CGt (TAdd (TCol 9) (TConst (Fv 10)))))
+      [0; 1; 2] (QCmp 3 CGe (Sv 5))
+  = Ok ([1; 0], [(2, [Iv 3; Bv true])]).
+Proof. vm_compute. reflexivity. Qed.
+Example ex_population : population ex_t2 false = ([0; 1; 9; 3], [(0, [Bv true; Iv 1; Iv 0; Sv 5]); (2, [Bv true; Iv 3; Iv 2; Sv 6])])
+                        /\ snd (population ex_t2 true) = trows ex_t2.
+Proof. vm_compute. auto. Qed.
 Example ex_full_view : get ex_t (mk_view [] QTrue) [1] (QCmp 3 CNe (Sv 0)) = Ok ([0; 1; 3], [(1, [Bv false; Iv 5; Sv 1])]).
 Proof. vm_compute. reflexivity. Qed.
 Example ex_two_levels :            (* full view -> [tracked; age; sex] -> [sex]: the default appears at the second level *)
@@ -197,6 +234,10 @@ Print Assumptions C12_subview_query.
 Print Assumptions C12_subview_read.
 Print Assumptions C12_missing_column.
 Print Assumptions C12_in_is_disjunction.
+Print Assumptions C12_term_denominator_positive.
+Print Assumptions C12_term_atom.
+Print Assumptions C12_population.
+Print Assumptions C12_population_vs_full_view.
 Print Assumptions C12_after_history.
 Print Assumptions C12_current_cell.
 Print Assumptions C12_last_write_wins.
